@@ -44,6 +44,19 @@ func oracle(r *scen.Runner, sp *scen.Sprint) *harn.Failure {
 	}
 	_ = json.Unmarshal(sp.BeforeJSON, &before)
 
+	// the resume limit is checked before anything else: once the session has waited that often, any resume of the waiting
+	// session (acceptable or not) ends it as failed
+	limit := r.Case.Options.MaxResumesPerSession
+	if limit == 0 {
+		limit = 250
+	}
+	if before.Status == "waiting" && strings.Count(string(sp.BeforeJSON), `_wait","created_on"`) >= limit {
+		stats.Label("resume-limit-reached")
+		if sp.Err != nil || r.Session.Status() != flows.SessionStatusFailed {
+			return harn.Failf("resume-limit-fails-session", "sprint %d: the session had already waited %d times (MaxResumesPerSession %d) but the %s resume gave status %s, error %v", sp.Index, strings.Count(string(sp.BeforeJSON), `_wait","created_on"`), limit, resumeType(st), r.Session.Status(), sp.Err)
+		}
+	}
+
 	if sp.Err != nil {
 		// a rejection: must be an engine error with one of the three codes, and must leave the session exactly as it was
 		var eerr *engine.Error
@@ -62,7 +75,8 @@ func oracle(r *scen.Runner, sp *scen.Sprint) *harn.Failure {
 			return harn.Failf("rejection-produces-nothing", "sprint %d: rejected resume produced %d events", sp.Index, len(sp.Sprint.Events()))
 		}
 		stats.Label("rejected:" + fmt.Sprint(eerr.Code()))
-		stats.Nontrivial(stats.Hash64("reject", before.Status, resumeType(st), fault, fmt.Sprint(eerr.Code()), fmt.Sprint(len(r.Session.Runs()))))
+		stats.Nontrivial(stats.Hash64("reject", before.Status, resumeType(st), fault, fmt.Sprint(eerr.Code()), fmt.Sprint(len(r.Session.Runs())), string(r.Case.Assets), string(r.Case.Trigger), fmt.Sprint(len(r.Sprints))))
+		stats.Label("class:" + fmt.Sprint("reject/", before.Status, "/", resumeType(st), "/", fault, "/", eerr.Code()))
 		return nil
 	}
 	// accepted or impossible: never a Go error (checked above), C01 invariants (sprop), and a session that became failed says why
@@ -78,7 +92,7 @@ func oracle(r *scen.Runner, sp *scen.Sprint) *harn.Failure {
 		}
 		if fault != "none" {
 			stats.Label("fault-failed-session:" + fault)
-			stats.Nontrivial(stats.Hash64("fault", before.Status, resumeType(st), fault, fmt.Sprint(len(r.Session.Runs()))))
+			stats.Nontrivial(stats.Hash64("fault", before.Status, resumeType(st), fault, fmt.Sprint(len(r.Session.Runs())), string(r.Case.Assets), string(r.Case.Trigger), fmt.Sprint(len(r.Sprints))))
 		}
 	}
 	if fault != "none" {
@@ -92,6 +106,7 @@ var opts = scen.GenOpts{
 	WrongResumes: true,
 	Restarts:     true,
 	LowLimits:    false,
+	ResumeLimits: true,
 	MaxSteps:     7,
 }
 
